@@ -32,6 +32,9 @@ FIXED = [
  ("C09", "prefix_for_namespace skips shadowed", "prefix_for_namespace returned None as soon as it met a prefix that a nearer declaration shadows, although another prefix (or the built-in xml prefix) was bound to the namespace further up"),
  ("C09", "qualified name of an attribute node never uses the empty prefix", "node_name_ref / name_ref / full_name on an attribute node whose namespace is only bound as the default namespace reported the empty prefix (which for an attribute means no namespace)"),
  ("C11", "MutableNodeMap::is_empty returned", "MutableNodeMap::is_empty (attributes_mut / namespaces_mut views) was inverted: true for a non-empty map, false for an empty one"),
+ ("C19", "recognise the real XHTML namespace URI", "the HTML5 serializer only knew https://www.w3.org/1999/xhtml as the XHTML namespace: elements in the real namespace http://www.w3.org/1999/xhtml were written prefixed (h:p), void elements got end tags, script / style text was escaped"),
+ ("C19", "text node without an element parent", "html5().to_string of a fragment (text directly under a document node) or of a single text node panicked (Option::unwrap on None in Html5Serializer::render_output)"),
+ ("C19", "ends with its element", "the xmlns declaration the HTML5 serializer adds for an SVG / MathML / XHTML element was recorded in the enclosing scope and never removed: a later sibling in that namespace (outside the svg element) was written unprefixed with no default-namespace declaration"),
  ("C13", "shallow_equal_ignore_attributes counts", "shallow_equal_ignore_attributes with a name repeated in the ignore list that b carries: the name was subtracted twice (usize underflow panic in dev, wrong answer in release)"),
 ]
 
